@@ -197,7 +197,8 @@ class World:
             pr = [q for q in new if snap[q] == self.cids[j].encode()]
             cr = [q for q in new if snap[q] == (p + "\n").encode()]
             if len(new) != 2 or len(pr) != 1 or len(cr) != 1:
-                raise LearnFailed(dict(api="tag_object", args=[p, self.cids[j]], outcome="created %d files" % len(new)))
+                raise LearnFailed(dict(api="tag_object", args=[p, self.cids[j]], outcome=(
+                    "created %d files" % len(new)) if len(new) != 2 else "reference files hold %r" % sorted(snap[q] for q in new)))
             self.PIDREF[i] = pr[0]
             if self.CIDREF[j] is None:
                 self.CIDREF[j] = cr[0]
